@@ -84,8 +84,12 @@ class _RandomProxy:
             idx = list(range(len(population) - k, len(population)))
         elif mode == "reversed":          # a draw in descending order: selection order differs from found order
             idx = list(range(len(population) - 1, len(population) - 1 - k, -1))
+        elif isinstance(mode, tuple) and mode[0] == "script" and len(mode[1]) == k and all(0 <= int(i) < len(population) for i in mode[1]) and len(set(mode[1])) == k:
+            idx = [int(i) for i in mode[1]]     # a draw the check scripted (still one of the draws the generator can make)
+            mode = "script"
         else:
             idx = _random.sample(range(len(population)), k)
+            mode = "real" if isinstance(mode, tuple) else mode
         if k > len(population) or k < 0:
             return _random.sample(population, k)   # let the real error happen
         emit("sample", n=len(population), k=k, picked=list(idx), mode=mode)
@@ -116,6 +120,15 @@ class _NpProxy:
 
     def __getattr__(self, name):
         return getattr(np, name)
+
+
+def rng_fingerprint():
+    """state of both random generators, to tell whether anything was drawn between two events (whatever call drew it)"""
+    try:
+        st = np.random.get_state()
+        return hash((_random.getstate(), st[1].tobytes(), st[2]))
+    except Exception:
+        return None
 
 
 def _rebind(name, new):
@@ -165,7 +178,7 @@ def install():
             raise
         idx, pos, quats = res
         emit("find.ret", matches=[tuple(int(i) for i in m) for m in idx], positions=np.array(pos, dtype=float, copy=True),
-             quats=quats, atol=atol, hints=hints,
+             quats=quats, atol=atol, hints=hints, rng=rng_fingerprint(),
              pattern_positions=np.array(pattern.positions, dtype=float, copy=True), pattern_elements=_elements_of(pattern))
         if return_positions_and_quats:
             return res
@@ -185,9 +198,9 @@ def install():
         try:
             res = real_replace(structure, search_pattern, replace_pattern, *args, **kwargs)
         except Exception as e:
-            emit("replace.raise", exc=type(e).__name__, msg=str(e)[:200], exc_obj=e)
+            emit("replace.raise", exc=type(e).__name__, msg=str(e)[:200], exc_obj=e, rng=rng_fingerprint())
             raise
-        emit("replace.ret", result=res)
+        emit("replace.ret", result=res, rng=rng_fingerprint())
         out = res[0] if isinstance(res, tuple) else res
         contracts.check_atoms_consistent(out, "replace_pattern_in_structure(result)")
         return res
